@@ -1,6 +1,10 @@
 package annotation
 
-import "go/types"
+import (
+	"go/types"
+
+	"golang.org/x/tools/go/analysis"
+)
 
 // VerifObservedMap lets harnesses of other packages build an ObservedMap (its fields are
 // unexported): explicit annotations on package-level variables and on struct fields.
@@ -10,3 +14,6 @@ func VerifObservedMap(globals, fields map[*types.Var]Val) *ObservedMap {
 		globalVarsAnnMap: globals,
 	}
 }
+
+// VerifRun lets harnesses of other packages run this analyzer's (unexported) run function.
+func VerifRun(p *analysis.Pass) (*ObservedMap, error) { return run(p) }
